@@ -614,65 +614,80 @@ def plainStep1 (T : Tables) (s : S1) (p : PMode) (b : Byte) : S1 :=
     | .startTok => { s with mode := .tok .token, tok := [b] }
     | .commaAt =>
       match commaAtTop s.core with
-      | some c => { s with core := c }
+      | some c => { s with core := c, mode := .plain p }
       | none => { s with mode := .tok .token, tok := [b] }
     | .startAfter t base => { s with core := setBase s.core base, mode := .tok t, tok := [] }
     | .startStr m => { s with core := { s.core with nextMode := m }, mode := .str m, sbuf := [] }
     | .raise => s.fail .parse
     | .bad => s.fail .table
 
+/-- a byte met in one of the four token modes -/
+def tokStep1 (T : Tables) (cfg : Cfg) (s : S1) (t : TMode) (b : Byte) : S1 :=
+  match lookup? T (.tok t) b with
+  | none => s.fail .table
+  | some a =>
+    if a = .skipByte then { s with tok := s.tok ++ [b] }
+    else if a = doneOf t then
+      let s0 : S1 := { s with core := consume T cfg t s.core s.tok, mode := .plain .value, tok := [] }
+      match s0.core.halt with
+      | some _ => s0
+      | none => plainStep1 T s0 .value b
+    else if a = .raise then s.fail .parse
+    else s.fail .table
+
+/-- a byte inside a string or |symbol| -/
+def strStep1 (T : Tables) (s : S1) (m : SMode) (b : Byte) : S1 :=
+  match lookup? T (.str m) b with
+  | none => s.fail .table
+  | some a =>
+    match a with
+    | .stringByte => { s with sbuf := s.sbuf ++ [b] }
+    | .stringDone => { s with core := s.core.push (.str s.sbuf), mode := .plain .value, sbuf := [] }
+    | .pipeDone => { s with core := s.core.push (.sym s.sbuf), mode := .plain .value, sbuf := [] }
+    | .escByte => { s with mode := .esc }
+    | .raise => s.fail .parse
+    | _ => s.fail .table
+
+/-- the byte after a backslash -/
+def escStep1 (T : Tables) (s : S1) (b : Byte) : S1 :=
+  match lookup? T .esc b with
+  | none => s.fail .table
+  | some a =>
+    match a with
+    | .escOne => { s with sbuf := s.sbuf ++ [(T.escMap.getD b.toNat 0).toUInt8], mode := .str s.core.nextMode }
+    | .escUnicode4 => { s with core := { s.core with rn := 0, rcnt := 4 }, mode := .rune }
+    | .escUnicode8 => { s with core := { s.core with rn := 0, rcnt := 8 }, mode := .rune }
+    | .raise => s.fail .parse
+    | _ => s.fail .table
+
+/-- a hex digit of \uXXXX / \UXXXXXXXX -/
+def runeStep1 (T : Tables) (s : S1) (b : Byte) : S1 :=
+  match lookup? T .rune b with
+  | none => s.fail .table
+  | some a =>
+    match runeVal a b with
+    | some v =>
+      let rn := s.core.rn * 16 + v
+      if s.core.rcnt - 1 = 0 then
+        { s with core := { s.core with rn := rn, rcnt := 0 }, sbuf := s.sbuf ++ encodeRune rn,
+                 mode := .str s.core.nextMode }
+      else { s with core := { s.core with rn := rn, rcnt := s.core.rcnt - 1 } }
+    | none => if a = .raise then s.fail .parse else s.fail .table
+
+/-- the `switch r.mode[b]` of `read` for one byte -/
+def body1 (T : Tables) (cfg : Cfg) (s : S1) (b : Byte) : S1 :=
+  match s.mode with
+  | .plain p => plainStep1 T s p b
+  | .tok t => tokStep1 T cfg s t b
+  | .str m => strStep1 T s m b
+  | .esc => escStep1 T s b
+  | .rune => runeStep1 T s b
+
 def step1 (T : Tables) (cfg : Cfg) (s : S1) (b : Byte) : S1 :=
   match s.core.halt with
   | some _ => { s with pos := s.pos + 1 }
   | none =>
-    let s' : S1 :=
-      match s.mode with
-      | .plain p => plainStep1 T s p b
-      | .tok t =>
-        match lookup? T (.tok t) b with
-        | none => s.fail .table
-        | some a =>
-          if a = .skipByte then { s with tok := s.tok ++ [b] }
-          else if a = doneOf t then
-            let s0 : S1 := { s with core := consume T cfg t s.core s.tok, mode := .plain .value, tok := [] }
-            match s0.core.halt with
-            | some _ => s0
-            | none => plainStep1 T s0 .value b
-          else if a = .raise then s.fail .parse
-          else s.fail .table
-      | .str m =>
-        match lookup? T (.str m) b with
-        | none => s.fail .table
-        | some a =>
-          match a with
-          | .stringByte => { s with sbuf := s.sbuf ++ [b] }
-          | .stringDone => { s with core := s.core.push (.str s.sbuf), mode := .plain .value, sbuf := [] }
-          | .pipeDone => { s with core := s.core.push (.sym s.sbuf), mode := .plain .value, sbuf := [] }
-          | .escByte => { s with mode := .esc }
-          | .raise => s.fail .parse
-          | _ => s.fail .table
-      | .esc =>
-        match lookup? T .esc b with
-        | none => s.fail .table
-        | some a =>
-          match a with
-          | .escOne => { s with sbuf := s.sbuf ++ [(T.escMap.getD b.toNat 0).toUInt8], mode := .str s.core.nextMode }
-          | .escUnicode4 => { s with core := { s.core with rn := 0, rcnt := 4 }, mode := .rune }
-          | .escUnicode8 => { s with core := { s.core with rn := 0, rcnt := 8 }, mode := .rune }
-          | .raise => s.fail .parse
-          | _ => s.fail .table
-      | .rune =>
-        match lookup? T .rune b with
-        | none => s.fail .table
-        | some a =>
-          match runeVal a b with
-          | some v =>
-            let rn := s.core.rn * 16 + v
-            if s.core.rcnt - 1 = 0 then
-              { s with core := { s.core with rn := rn, rcnt := 0 }, sbuf := s.sbuf ++ encodeRune rn,
-                       mode := .str s.core.nextMode }
-            else { s with core := { s.core with rn := rn, rcnt := s.core.rcnt - 1 } }
-          | none => if a = .raise then s.fail .parse else s.fail .table
+    let s' := body1 T cfg s b
     { s' with core := oneCheck cfg s.pos b s'.core, pos := s.pos + 1 }
 
 inductive Result where
@@ -732,8 +747,6 @@ structure S2 where
   tokenStart : Nat := 0
   /-- string content once it can no longer be a slice of the current block -/
   buf : List Byte := []
-  /-- `ReadStream`'s position accumulator: bytes of the blocks already read -/
-  consumed : Nat := 0
 
 def S2.fail (s : S2) (e : Err) : S2 := { s with core := s.core.fail e }
 
@@ -756,7 +769,7 @@ def plainStep2 (T : Tables) (pos : Nat) (s : S2) (p : PMode) (b : Byte) : S2 :=
     | .startTok => { s with mode := .tok .token, tokenStart := pos }
     | .commaAt =>
       match commaAtTop s.core with
-      | some c => { s with core := c }
+      | some c => { s with core := c, mode := .plain p }
       | none => { s with mode := .tok .token, tokenStart := pos }
     | .startAfter t base => { s with core := setBase s.core base, mode := .tok t, tokenStart := pos + 1 }
     | .startStr m =>
@@ -764,75 +777,86 @@ def plainStep2 (T : Tables) (pos : Nat) (s : S2) (p : PMode) (b : Byte) : S2 :=
     | .raise => s.fail .parse
     | .bad => s.fail .table
 
-/-- one byte `b = src[pos]` of the current block `src` -/
-def step2 (T : Tables) (cfg : Cfg) (src : List Byte) (pos : Nat) (s : S2) (b : Byte) : S2 :=
+def tokStep2 (T : Tables) (cfg : Cfg) (src : List Byte) (pos : Nat) (s : S2) (t : TMode) (b : Byte) : S2 :=
+  match lookup? T (.tok t) b with
+  | none => s.fail .table
+  | some a =>
+    if a = .skipByte then s
+    else if a = doneOf t then
+      let s0 : S2 :=
+        { s with core := consume T cfg t s.core (makeToken src pos s), mode := .plain .value, carry := [] }
+      match s0.core.halt with
+      | some _ => s0
+      | none => plainStep2 T pos s0 .value b
+    else if a = .raise then s.fail .parse
+    else s.fail .table
+
+def strStep2 (T : Tables) (src : List Byte) (pos : Nat) (s : S2) (m : SMode) (b : Byte) : S2 :=
+  match lookup? T (.str m) b with
+  | none => s.fail .table
+  | some a =>
+    match a with
+    | .stringByte =>
+      match s.buf with
+      | [] => s
+      | _ :: _ => { s with buf := s.buf ++ [b] }
+    | .stringDone => { s with core := s.core.push (.str (strContent src pos s)), mode := .plain .value }
+    | .pipeDone => { s with core := s.core.push (.sym (strContent src pos s)), mode := .plain .value }
+    | .escByte =>
+      match s.buf with
+      | [] => { s with buf := slice src s.tokenStart pos, mode := .esc }
+      | _ :: _ => { s with mode := .esc }
+    | .raise => s.fail .parse
+    | _ => s.fail .table
+
+def escStep2 (T : Tables) (s : S2) (b : Byte) : S2 :=
+  match lookup? T .esc b with
+  | none => s.fail .table
+  | some a =>
+    match a with
+    | .escOne => { s with buf := s.buf ++ [(T.escMap.getD b.toNat 0).toUInt8], mode := .str s.core.nextMode }
+    | .escUnicode4 => { s with core := { s.core with rn := 0, rcnt := 4 }, mode := .rune }
+    | .escUnicode8 => { s with core := { s.core with rn := 0, rcnt := 8 }, mode := .rune }
+    | .raise => s.fail .parse
+    | _ => s.fail .table
+
+def runeStep2 (T : Tables) (s : S2) (b : Byte) : S2 :=
+  match lookup? T .rune b with
+  | none => s.fail .table
+  | some a =>
+    match runeVal a b with
+    | some v =>
+      let rn := s.core.rn * 16 + v
+      if s.core.rcnt - 1 = 0 then
+        { s with core := { s.core with rn := rn, rcnt := 0 }, buf := s.buf ++ encodeRune rn,
+                 mode := .str s.core.nextMode }
+      else { s with core := { s.core with rn := rn, rcnt := s.core.rcnt - 1 } }
+    | none => if a = .raise then s.fail .parse else s.fail .table
+
+def body2 (T : Tables) (cfg : Cfg) (src : List Byte) (pos : Nat) (s : S2) (b : Byte) : S2 :=
+  match s.mode with
+  | .plain p => plainStep2 T pos s p b
+  | .tok t => tokStep2 T cfg src pos s t b
+  | .str m => strStep2 T src pos s m b
+  | .esc => escStep2 T s b
+  | .rune => runeStep2 T s b
+
+/-- one byte `b = src[pos]` of the current block `src`; `base` is `ReadStream`'s position
+    accumulator, the number of bytes in the blocks already read -/
+def step2 (T : Tables) (cfg : Cfg) (src : List Byte) (base pos : Nat) (s : S2) (b : Byte) : S2 :=
   match s.core.halt with
   | some _ => s
   | none =>
-    let s' : S2 :=
-      match s.mode with
-      | .plain p => plainStep2 T pos s p b
-      | .tok t =>
-        match lookup? T (.tok t) b with
-        | none => s.fail .table
-        | some a =>
-          if a = .skipByte then s
-          else if a = doneOf t then
-            let s0 : S2 :=
-              { s with core := consume T cfg t s.core (makeToken src pos s), mode := .plain .value, carry := [] }
-            match s0.core.halt with
-            | some _ => s0
-            | none => plainStep2 T pos s0 .value b
-          else if a = .raise then s.fail .parse
-          else s.fail .table
-      | .str m =>
-        match lookup? T (.str m) b with
-        | none => s.fail .table
-        | some a =>
-          match a with
-          | .stringByte =>
-            match s.buf with
-            | [] => s
-            | _ :: _ => { s with buf := s.buf ++ [b] }
-          | .stringDone => { s with core := s.core.push (.str (strContent src pos s)), mode := .plain .value }
-          | .pipeDone => { s with core := s.core.push (.sym (strContent src pos s)), mode := .plain .value }
-          | .escByte =>
-            match s.buf with
-            | [] => { s with buf := slice src s.tokenStart pos, mode := .esc }
-            | _ :: _ => { s with mode := .esc }
-          | .raise => s.fail .parse
-          | _ => s.fail .table
-      | .esc =>
-        match lookup? T .esc b with
-        | none => s.fail .table
-        | some a =>
-          match a with
-          | .escOne => { s with buf := s.buf ++ [(T.escMap.getD b.toNat 0).toUInt8], mode := .str s.core.nextMode }
-          | .escUnicode4 => { s with core := { s.core with rn := 0, rcnt := 4 }, mode := .rune }
-          | .escUnicode8 => { s with core := { s.core with rn := 0, rcnt := 8 }, mode := .rune }
-          | .raise => s.fail .parse
-          | _ => s.fail .table
-      | .rune =>
-        match lookup? T .rune b with
-        | none => s.fail .table
-        | some a =>
-          match runeVal a b with
-          | some v =>
-            let rn := s.core.rn * 16 + v
-            if s.core.rcnt - 1 = 0 then
-              { s with core := { s.core with rn := rn, rcnt := 0 }, buf := s.buf ++ encodeRune rn,
-                       mode := .str s.core.nextMode }
-            else { s with core := { s.core with rn := rn, rcnt := s.core.rcnt - 1 } }
-          | none => if a = .raise then s.fail .parse else s.fail .table
-    { s' with core := oneCheck cfg (s.consumed + pos) b s'.core }
+    let s' := body2 T cfg src pos s b
+    { s' with core := oneCheck cfg (base + pos) b s'.core }
 
 /-- the byte loop of `read` over `src[pos..]` -/
-def run2 (T : Tables) (cfg : Cfg) (src : List Byte) : S2 → Nat → List Byte → S2
+def run2 (T : Tables) (cfg : Cfg) (src : List Byte) (base : Nat) : S2 → Nat → List Byte → S2
   | s, _, [] => s
-  | s, pos, b :: rest => run2 T cfg src (step2 T cfg src pos s b) (pos + 1) rest
+  | s, pos, b :: rest => run2 T cfg src base (step2 T cfg src base pos s b) (pos + 1) rest
 
 /-- end of a block when the stream has more (`r.more`): save what the next block cannot see, then
-    `cr.tokenStart = 0` and `pos += cr.pos` of the caller's loop -/
+    `cr.tokenStart = 0` of the caller's loop -/
 def endBlock (src : List Byte) (s : S2) : S2 :=
   let s1 : S2 :=
     match s.core.halt with
@@ -845,23 +869,24 @@ def endBlock (src : List Byte) (s : S2) : S2 :=
         | [] => { s with buf := slice src s.tokenStart src.length }
         | _ :: _ => s
       | _ => s
-  { s1 with tokenStart := 0, consumed := s.consumed + src.length }
+  { s1 with tokenStart := 0 }
 
-def finish2 (T : Tables) (cfg : Cfg) (src : List Byte) (s : S2) : Result :=
+def finish2 (T : Tables) (cfg : Cfg) (src : List Byte) (base : Nat) (s : S2) : Result :=
   match s.core.halt with
-  | some _ => resultOf s.core (s.consumed + src.length)
-  | none => resultOf (finishCore T cfg s.core s.mode (makeToken src src.length s)) (s.consumed + src.length)
+  | some _ => resultOf s.core (base + src.length)
+  | none => resultOf (finishCore T cfg s.core s.mode (makeToken src src.length s)) (base + src.length)
 
 def init2 : S2 := {}
 
-def runBlocks (T : Tables) (cfg : Cfg) : S2 → List (List Byte) → S2
-  | s, [] => s
-  | s, blk :: rest => runBlocks T cfg (endBlock blk (run2 T cfg blk s 0 blk)) rest
+/-- the block loop of `ReadStream`: `pos += cr.pos` is the `base` of the next block -/
+def runBlocks (T : Tables) (cfg : Cfg) : Nat → S2 → List (List Byte) → Nat × S2
+  | base, s, [] => (base, s)
+  | base, s, blk :: rest => runBlocks T cfg (base + blk.length) (endBlock blk (run2 T cfg blk base s 0 blk)) rest
 
 /-- L2: the stream delivers `blocks` and then, together with the end-of-file, `last` -/
 def readBlocks (T : Tables) (cfg : Cfg) (blocks : List (List Byte)) (last : List Byte) : Result :=
-  let s := runBlocks T cfg init2 blocks
-  finish2 T cfg last (run2 T cfg last s 0 last)
+  let (base, s) := runBlocks T cfg 0 init2 blocks
+  finish2 T cfg last base (run2 T cfg last base s 0 last)
 
 /-! ### `ReadOne` -/
 
